@@ -531,7 +531,11 @@ def make_config(root, cli, nproc=None):
     c = types.SimpleNamespace()
     c.rootpath = root
     c.option = types.SimpleNamespace(inline_snapshot=cli)
-    if nproc != "absent":
+    if nproc == "worker":
+        # what pytest-xdist gives its worker processes: numprocesses reset to None, workerinput present
+        c.option.numprocesses = None
+        c.workerinput = {"workerid": "gw0"}
+    elif nproc != "absent":
         c.option.numprocesses = nproc
     c.pluginmanager = _PM()
     return c
